@@ -38,7 +38,8 @@ type tierParams struct {
 	flipCap   int // encodings longer than this get sampled offsets even in the thorough tier
 	truncAll  bool
 	budget    time.Duration // wall budget per value for flips / truncations (so one slow decoder cannot eat the tier)
-	mutBudget time.Duration // wall budget per value for the semantic mutation classes (the malformed classes always run)
+	mutBudget time.Duration // wall budget per value and semantic mutation class
+	malBudget time.Duration // wall budget per value and malformed class (exceeded: the type's summary is not "full")
 }
 
 func Main(args []string) int {
@@ -58,11 +59,11 @@ func Main(args []string) int {
 	}
 	seed = *sd
 	thorough = *tier == "thorough"
-	tp := tierParams{vals: 1, perClass: 2, flipBytes: 12, flipCap: 4096, budget: 700 * time.Millisecond, mutBudget: 1200 * time.Millisecond}
+	tp := tierParams{vals: 1, perClass: 2, flipBytes: 12, flipCap: 4096, budget: 700 * time.Millisecond, mutBudget: 150 * time.Millisecond, malBudget: 300 * time.Millisecond}
 	if thorough {
-		tp = tierParams{vals: 3, perClass: 0, flipBytes: 0, flipCap: 3000, truncAll: true, budget: 8 * time.Second, mutBudget: 15 * time.Second}
+		tp = tierParams{vals: 3, perClass: 0, flipBytes: 0, flipCap: 3000, truncAll: true, budget: 5 * time.Second, mutBudget: 1500 * time.Millisecond, malBudget: 4 * time.Second}
 	}
-	quickTp := tierParams{vals: 1, perClass: 2, flipBytes: 12, flipCap: 4096, budget: 700 * time.Millisecond, mutBudget: 1200 * time.Millisecond}
+	quickTp := tierParams{vals: 1, perClass: 2, flipBytes: 12, flipCap: 4096, budget: 700 * time.Millisecond, mutBudget: 150 * time.Millisecond, malBudget: 300 * time.Millisecond}
 
 	want := map[string]bool{}
 	for _, g := range strings.Split(*groups, ",") {
@@ -153,6 +154,7 @@ func campaign(typ string, cs []*capture, tp tierParams, pool *leafPool, stream u
 	cnt := map[string]int{}
 	pos := map[string]int{} // number of applicable positions over the mutated values
 	var nmut int
+	exhaustive := tp.perClass == 0
 	for vi, c := range cs {
 		roundTrip(c)
 		if vi >= tp.vals || (vi >= 1 && len(c.enc) > 10000) {
@@ -181,19 +183,42 @@ func campaign(typ string, cs []*capture, tp tierParams, pool *leafPool, stream u
 			}
 		}
 		seenSite := map[string]bool{}
-		mutStart := time.Now()
 		counted := map[string]bool{}
 		for _, k := range malformedClasses {
 			counted[k] = true
 		}
-		for _, m := range structural(c, tp.perClass, rng, pool, cs, true) {
-			if !counted[m.cls] && time.Since(mutStart) > tp.mutBudget {
-				continue
+		// budgets: every class gets its share of wall time per value; the first sites of every class always run
+		started := map[string]time.Time{}
+		done := map[string]int{}
+		pc := tp.perClass
+		if pc == 0 && len(sites(c.tree)) > 600 {
+			pc, exhaustive = 40, false // a very large encoding: the classes are sampled
+		}
+		want := func(cls string) bool {
+			t, ok := started[cls]
+			if !ok {
+				t = time.Now()
+				started[cls] = t
 			}
+			done[cls]++
+			b := tp.mutBudget
+			if counted[cls] {
+				b = tp.malBudget
+			}
+			if done[cls] > 3 && time.Since(t) > b {
+				if counted[cls] {
+					exhaustive = false
+				}
+				return false
+			}
+			return true
+		}
+		structural(c, pc, rng, pool, cs, want, func(m mutation) {
 			o := c.try(m.data)
 			ev := map[string]any{"typ": typ, "name": c.name, "grp": c.group, "cls": m.cls, "var": m.variant, "path": m.path, "kind": m.kind,
 				"res": o.res, "valid": o.valid, "regen": o.regen, "same": o.same, "canon": o.canon, "panic": o.panic_, "iface": c.iface}
-			if o.res == "acc" || o.panic_ {
+			// the bytes are logged only for lines that can be reported (replay); accepted valid ones are not
+			if o.panic_ || (o.res == "acc" && (o.valid == "f" || !o.regen || counted[m.cls])) {
 				ev["hex"] = hexCap(m.data, 6000)
 				ev["detail"] = o.detail
 			}
@@ -206,11 +231,11 @@ func campaign(typ string, cs []*capture, tp tierParams, pool *leafPool, stream u
 				seenSite[k] = true
 				cnt[m.cls]++
 			}
-		}
+		})
 		flips(c, tp, rng)
 		truncs(c, tp, rng)
 	}
-	emit("sum", map[string]any{"typ": typ, "nvals": len(cs), "nmut": nmut, "full": tp.perClass == 0,
+	emit("sum", map[string]any{"typ": typ, "nvals": len(cs), "nmut": nmut, "full": exhaustive,
 		"maps": pos["maps"], "structs": pos["structs"], "conts": pos["conts"], "tags": pos["tags"], "bstrs": pos["bstrs"],
 		"dupkey": cnt["dupkey"], "unkkey": cnt["unkkey"], "indef": cnt["indef"], "trailing": cnt["trailing"],
 		"bignum": cnt["bignum"], "tagdrop": cnt["tagdrop"], "tagswap": cnt["tagswap"]})
